@@ -5,6 +5,7 @@ their establishment by `secLoad` / `segLoad` and preservation by the (lazy) data
 and the lifting over the loader's loops.
 -/
 import ElfioVerif.Model.Load
+import ElfioVerif.Lemmas.LoadTie
 namespace ElfioVerif
 open Gen
 
@@ -519,7 +520,10 @@ theorem secLoad_eq (c : Cls) (enc : Enc) (tr : List Trans) (ls : LoadSt) (hdrOff
           ({ ls with st := (hdrRead tr ls.st hdrOff (shdrSize c)).1 },
            { secHdrOnly c enc tr (hdrRead tr ls.st hdrOff (shdrSize c)).1
                 (hdrRead tr ls.st hdrOff (shdrSize c)).2 (streamSizeOf tr ls.st).2 isLazy idx
-             with addrSet := true }) := rfl
+             with addrSet := true }) := by
+  -- the two conditions of `section_impl::load` are the generated ones (Gen/SitesLoad.lean)
+  rw [LoadTie.secLoad_hand]
+  rfl
 
 /-- the stream-size clause of `LoadedSec` right after the header read -/
 theorem secLoad_ss (tr : List Trans) (st : IStream) (hdrOff : Int) (n : Nat) (img : Bytes)
@@ -750,8 +754,9 @@ theorem segLoad_eq (c : Cls) (enc : Enc) (tr : List Trans) (ls : LoadSt) (hdrOff
       if (!(isLazy || (segHdr c enc tr ls.st hdrOff isLazy).isLoaded)) = true then
         segLoadData c tr { ls with st := (hdrRead tr ls.st hdrOff (phdrSize c)).1 }
           (segHdr c enc tr ls.st hdrOff isLazy)
-      else ({ ls with st := (hdrRead tr ls.st hdrOff (phdrSize c)).1 }, segHdr c enc tr ls.st hdrOff isLazy, true) :=
-  rfl
+      else ({ ls with st := (hdrRead tr ls.st hdrOff (phdrSize c)).1 }, segHdr c enc tr ls.st hdrOff isLazy, true) := by
+  -- `if ( !( is_lazy || is_loaded ) )` is the generated condition of either instantiation
+  cases c <;> rfl
 
 /-- a program header of which nothing was read is the `PT_NULL` one -/
 theorem decodePhdr_zero_stype (c : Cls) (enc : Enc) (g : Seg) :
